@@ -1,3 +1,4 @@
+pub mod drivers;
 pub mod judge;
 pub mod obs;
 pub mod replay;
